@@ -262,6 +262,51 @@ func vpH_C06_fixed() {
 	vpReach("end")
 }
 
+// a text next to another text-bearing property that is present but says nothing (entries with empty
+// texts, an allocated empty list): the text still survives, in both codecs
+func vpH_C06_next_to_empty() {
+	t := []byte{vpByte()}
+	vpAssume(utf8.Valid(t))
+	var empty NaturalLanguageValues
+	switch vpChoice(4) {
+	case 0:
+		empty = NaturalLanguageValues{{Ref: "en", Value: Content{}}}
+	case 1:
+		empty = NaturalLanguageValues{{Ref: NilLangRef, Value: Content{}}}
+	case 2:
+		empty = NaturalLanguageValues{{Ref: "en", Value: Content{}}, {Ref: "fr", Value: nil}}
+	default:
+		empty = NaturalLanguageValues{}
+	}
+	n := NaturalLanguageValues{{Ref: NilLangRef, Value: Content(t)}}
+	var x Item
+	which := vpChoice(4)
+	switch which {
+	case 0:
+		x = &Object{ID: "https://h.ex/i", Type: NoteType, Name: n, Content: empty}
+	case 1:
+		x = &Object{ID: "https://h.ex/i", Type: NoteType, Name: n, Summary: empty}
+	case 2:
+		x = &Object{ID: "https://h.ex/i", Type: NoteType, Summary: n, Name: empty}
+	default:
+		x = &Actor{ID: "https://h.ex/i", Type: PersonType, Name: n, PreferredUsername: empty}
+	}
+	get := func(y Item) NaturalLanguageValues {
+		o, _ := ToObject(y)
+		if o == nil {
+			return nil
+		}
+		if which == 2 {
+			return o.Summary
+		}
+		return o.Name
+	}
+	codec := vpChoice(2)
+	cell := "next-to-empty/" + string([]byte{'0' + byte(which)}) + "/" + []string{"json", "gob"}[codec]
+	vpC06Check(cell, codec, x, get, 0, t)
+	vpReach("end")
+}
+
 func vpW_C06_twin() {
 	x, _ := vpC06Value(0, 0, []byte{vpLower()})
 	b, _ := vpMarshalItem(x)
